@@ -97,6 +97,29 @@ def runHist (env : Vars) (steps : List Json) : Except String (List Json) := do
             out := out ++ [Json.mkObj [("unmodelled", Json.bool true)]]
   pure out
 
+def fsOfJson (j : Json) : Except String FS := do
+  let ents ← j.getObjValAs? (Array Json) "entries"
+  let es ← ents.toList.mapM fun e => do
+    let path ← e.getObjValAs? String "path"
+    let comps := splitPath path
+    match e.getObjVal? "docs" with
+    | .ok (.arr ds) => do
+      let docs ← ds.toList.mapM valOfJson
+      pure (comps, FNode.file (.ok docs))
+    | _ =>
+      match e.getObjVal? "error" with
+      | .ok _ => pure (comps, FNode.file (.error Err.unmarshal))
+      | _ =>
+        match e.getObjVal? "link" with
+        | .ok (.str t) => pure (comps, FNode.link t)
+        | _ => pure (comps, FNode.dir)
+  pure { entries := es }
+
+def optStr (j : Json) (k : String) : Option String :=
+  match j.getObjVal? k with
+  | .ok (.str s) => some s
+  | _ => none
+
 def handle (j : Json) : Except String Json := do
   let op ← j.getObjValAs? String "op"
   match op with
@@ -138,6 +161,32 @@ def handle (j : Json) : Except String Json := do
   | "fmtv" =>
     let v ← valOfJson (j.getObjValD "v")
     pure (Json.mkObj [("ok", Json.str (fmtV v))])
+  | "fs" =>
+    let fs ← fsOfJson j
+    let cwd := splitPath (← j.getObjValAs? String "cwd")
+    let env := envOfJson (j.getObjValD "env")
+    let o := j.getObjValD "opts"
+    let opts : CliOpts := {
+      format := optStr o "format", outPath := optStr o "out", rootPath := optStr o "root",
+      skipParent := (o.getObjValD "skipParent") == Json.bool true,
+      inputs := strList (o.getObjValD "inputs") }
+    match cliRun fs cwd env opts with
+    | .ok r => pure (Json.mkObj [("ok", Json.mkObj [
+        ("format", Json.str r.format),
+        ("docs", Json.arr (r.docs.map valToJson).toArray),
+        ("merged", Json.arr (r.merged.map valToJson).toArray),
+        ("order", Json.arr (r.loadOrder.map Json.str).toArray)])])
+    | .error e => pure (errJson e)
+  | "wrap" =>
+    let fs ← fsOfJson j
+    let cwd := splitPath (← j.getObjValAs? String "cwd")
+    let env := envOfJson (j.getObjValD "env")
+    let args := strList (j.getObjValD "args")
+    match wrapArgs fs cwd env args with
+    | .ok ws => pure (Json.mkObj [("ok", Json.arr (ws.map fun w => match w with
+        | .verbatim s => Json.mkObj [("verbatim", Json.str s)]
+        | .evaluated f ds => Json.mkObj [("format", Json.str f), ("docs", Json.arr (ds.map valToJson).toArray)]).toArray)])
+    | .error e => pure (errJson e)
   | "parseref" =>
     let s ← j.getObjValAs? String "s"
     match parseRef s with
